@@ -394,7 +394,7 @@ theorem accumP_eq : ∀ (gs : List Nat) (int : Nat), gs ≠ [] → accumP gs int
       have : (int + g) * 128 < 2 ^ 64 := by
         have e : (2 : Nat) ^ 64 = 2 ^ 57 * 128 := by decide
         rw [e]; exact Nat.mul_lt_mul_of_pos_right h57 (by decide)
-      rw [if_pos this]
+      rw [Nat.mod_eq_of_lt this]   -- the wrapping shift loses nothing below 2^57
       exact accumP_eq (g' :: rest) _ (by simp)
     · rw [if_neg h57, if_neg h57]; rfl
 
@@ -409,7 +409,8 @@ theorem collect_nonempty : ∀ (b : Bytes) (acc gs : List Nat) (r : Bytes), coll
         rw [← h.1]; simp
       · exact collect_nonempty xs _ gs r h
 
-/-- `VarInt::consensus_decode`: `split_last().unwrap()` always finds a group, and `int << 7` never loses a set bit -/
+/-- `VarInt::consensus_decode`: `split_last().unwrap()` always finds a group (the one panic site); and the value is the total
+model's — in particular the wrapping shift `int << 7` never loses a set bit (a value fact, not a panic) -/
 theorem varint_accum_no_panic (b : Bytes) (gs : List Nat) (r : Bytes) (h : collect b [] = some (gs, r)) :
     accumP gs.reverse 0 = ofOpt (accum gs.reverse 0) :=
   accumP_eq _ _ (by simpa using collect_nonempty b [] gs r h)
@@ -434,4 +435,17 @@ theorem mixinP_no_panic (ins : List TxIn) : (mixinP ins).isPanic = false := by
     | toKey a o k =>
       simp only [List.head?_cons]
       split <;> rfl
+/-- the index expression ALONE panics exactly on the empty input list: the site can fire -/
+theorem mixinAtP_panic_iff (ins : List TxIn) : (mixinAtP ins).isPanic = true ↔ ins = [] := by
+  cases ins with
+  | nil => exact ⟨fun _ => rfl, fun _ => rfl⟩
+  | cons i r =>
+    refine ⟨fun h => ?_, fun h => by cases h⟩
+    exfalso
+    cases i with
+    | gen g => simp [mixinAtP, Out.isPanic] at h
+    | toKey a o k =>
+      unfold mixinAtP at h
+      simp only [List.getElem?_cons_zero] at h
+      split at h <;> simp [Out.isPanic] at h
 end Monero.Panics
